@@ -124,12 +124,19 @@ func av1String(seq []byte) (string, string, bool) {
 func currentParams(c *media.Case, track int, wi int) media.Params {
 	ts := &c.Tracks[track]
 	cur := ts.ParamSets[0]
+	at := -1
 	for _, s := range c.Samples(track) {
 		if s.WriteIdx > wi {
 			break
 		}
 		if s.ParamIdx >= 0 {
-			cur = ts.ParamSets[s.ParamIdx]
+			cur, at = ts.ParamSets[s.ParamIdx], s.WriteIdx
+		}
+	}
+	// parameter sets written in an access unit of their own (no picture, hence no sample)
+	for _, pw := range c.ParamWrites {
+		if pw.Track == track && pw.WriteIdx <= wi && pw.WriteIdx > at {
+			cur, at = ts.ParamSets[pw.ParamIdx], pw.WriteIdx
 		}
 	}
 	return cur
